@@ -122,6 +122,7 @@ type FuncContract struct {
 	Trusted  string
 	NoOverflow string
 	Wraparound string
+	Effects  []*Clause // ghost effect-log appends: Label = log name, Expr = logged string value
 	File     string
 	Line     int
 	Imports  []*ast.ImportSpec
@@ -155,13 +156,14 @@ type ContractFile struct {
 	Package   string
 	Funcs     []*FuncContract
 	Uses      []string // //@ use NAME lines: stdlib spec files to include
+	PureMethods []string // //@ puremethod NAME ...: interface methods assumed to be pure observers
 	Imports   []*ast.ImportSpec
 }
 
 var clauseKeywords = map[string]bool{
 	"requires": true, "ensures": true, "modifies": true, "pure": true, "observer": true, "loop": true,
 	"inline": true, "uses": true, "induct": true, "decreases": true, "witness": true, "trusted": true,
-	"trigger": true, "instance": true, "nooverflow": true, "assert": true, "wraparound": true,
+	"trigger": true, "instance": true, "nooverflow": true, "assert": true, "wraparound": true, "effect": true,
 }
 
 // ScanContractFile extracts the //@ blocks of a Go source file.
@@ -220,6 +222,11 @@ func ScanContractFile(path string, src []byte) (*ContractFile, error) {
 				return nil, err
 			}
 			cf.Uses = append(cf.Uses, strings.Fields(body[3:])...)
+		case first == "puremethod":
+			if err := flush(); err != nil {
+				return nil, err
+			}
+			cf.PureMethods = append(cf.PureMethods, strings.Fields(strings.ReplaceAll(body[len("puremethod"):], ",", " "))...)
 		case first == "func" || first == "extern" || first == "lemma":
 			if err := flush(); err != nil {
 				return nil, err
@@ -461,6 +468,12 @@ func (cf *ContractFile) addClause(fc *FuncContract, text string, line int) error
 			rest = "no reason given"
 		}
 		fc.NoOverflow = rest
+	case "effect":
+		k := strings.IndexAny(rest, " \t")
+		if k < 0 {
+			return bad("effect needs a log name and an expression")
+		}
+		fc.Effects = append(fc.Effects, &Clause{Kind: "effect", Label: rest[:k], Loop: -1, Expr: strings.TrimSpace(rest[k:]), Line: line})
 	case "wraparound":
 		if rest == "" {
 			rest = "signed arithmetic wraps"
@@ -724,6 +737,8 @@ func (d *desugarer) expr(ts []tok, old bool) string {
 		case t.tok == token.IDENT && old && d.ptrParams[t.lit] && (i == 0 || ts[i-1].tok != token.PERIOD):
 			d.usedOld[t.lit] = true
 			sb.WriteString(t.lit + "_old")
+		case t.tok == token.IDENT && old && t.lit == "vLogStr":
+			sb.WriteString("vLogStrOld")
 		default:
 			sb.WriteString(t.lit)
 		}
@@ -818,7 +833,7 @@ func (fc *FuncContract) genClause(sb *strings.Builder, c *Clause, withResults bo
 		ps = append(ps, p.Name+" "+p.Type)
 		c.Bind = append(c.Bind, Binding{Kind: "param", Index: i, Name: p.Name})
 	}
-	if c.Kind != "requires" {
+	if c.Kind != "requires" && c.Kind != "effect" {
 		for i, p := range all {
 			if p.isPtr() {
 				ps = append(ps, p.Name+"_old "+p.Type)
@@ -862,6 +877,11 @@ func (cf *ContractFile) GenGo(sb *strings.Builder) error {
 		}
 		for _, c := range fc.Asserts {
 			if err := fc.genClause(sb, c, false, nil, "bool"); err != nil {
+				return err
+			}
+		}
+		for _, c := range fc.Effects {
+			if err := fc.genClause(sb, c, false, nil, "string"); err != nil {
 				return err
 			}
 		}
